@@ -16,17 +16,21 @@ struct Raw {};
 static const long StMod = 32768;
 
 // ---- the string table -------------------------------------------------------------------
+static const int NStrings = 6;    // CppLibCalls!NStrings
+static const int NCStrings = 5;   // entries a C string can be (no embedded NUL)
 inline const std::string &table(int t) {
-  static const std::string T[4] = {
+  static const std::string T[NStrings] = {
     "", "a b",
     std::string("The quick brown fox jumps over the lazy dog. ") + std::string(155, 'x'),   // 200 bytes
-    "q\"uo\\te'"};
-  return T[t & 3];
+    "q\"uo\\te'",
+    "\xc3\xa9\xe2\x82\xac\xf0\x9f\x98\x80~",          // UTF-8: 2-, 3- and 4-byte sequences
+    std::string("a b\0tail", 8)};                      // embedded NUL followed by more data
+  return T[(t >= 0 && t < NStrings) ? t : 0];
 }
 // text = table[t] ("#" n)?   ->   t, n (-1 when absent); t = -1 when the text is not of that form
 inline void parse_str(const std::string &s, int &t, long &n) {
   t = -1; n = -1;
-  for (int i = 3; i >= 0; --i) {      // longest first is not needed: entries are not prefixes of each other + '#'
+  for (int i = NStrings - 1; i >= 0; --i) {      // the longest matching entry wins
     const std::string &b = table(i);
     if (s.compare(0, b.size(), b) != 0) continue;
     if (s.size() == b.size()) { if (t < 0 || b.size() > table(t).size()) { t = i; n = -1; } continue; }
@@ -76,7 +80,12 @@ struct Call {
   void b(bool v) { sep(); if (f) fprintf(f, "%d", v ? 1 : 0); add(v ? 2u : 1u); }
   void str(const char *p) { std::string t(p ? p : "<null>"); sep(); if (f) json_str(f, t); add(HS(t)); }
   void str(const std::string &t) { sep(); if (f) json_str(f, t); add(HS(t)); }
-  void obj(bool null, long st) { sep(); if (f) { if (null) fputs("null", f); else fprintf(f, "{\"st\":%ld}", st); } add(null ? 40000u : (uint32_t)st); }
+  // an object argument: the state of its K0 part and its payload (CppLibCalls!K0Part)
+  void obj(bool null, long st, long tg) {
+    sep();
+    if (f) { if (null) fputs("null", f); else fprintf(f, "{\"st\":%ld,\"tg\":%ld}", st, tg); }
+    add(null ? 40000u : (uint32_t)((st + 7 * (tg + 1)) % StMod));
+  }
   long mix() { if (f) { fputs("]}\n", f); fflush(f); f = 0; } return (long)sum; }
   long weight() const { return wsum; }
 };
@@ -105,9 +114,18 @@ inline float enc_f32(long m) { static const long B[6] = {0, 1, -1, 16777215, -16
 inline double enc_f64(long m) { static const long long B[7] = {0, 1, -1, 16777217, -16777217, 2147483647LL, -2147483648LL}; long long k = m % 5 == 0 ? B[bidx(m, 7)] : gen32(m); return (double)k / 8.0; }
 inline bool enc_bool(long m) { return m % 2 != 0; }
 inline unsigned int enc_enum(long m) { static const unsigned int V[3] = {0, 5, 70000}; return V[m % 3]; }
-inline std::string enc_string(long m) { return mkstr(m % 4, m % 100000); }
+inline std::string enc_string(long m) { return mkstr(m % NStrings, m % 100000); }
 // a returned C string must outlive the call: one buffer per call site
-inline const char *enc_cstr(long m, std::string &hold) { hold = enc_string(m); return hold.c_str(); }
+inline const char *enc_cstr(long m, std::string &hold) { hold = mkstr(m % NCStrings, m % 100000); return hold.c_str(); }
+
+// ---- the payload of a K0 part: a heap-allocated string spelling the number tg ------------------
+inline std::string mktag(long tg) { return "payload-tag-text-" + std::to_string(tg); }
+inline long tagnum(const std::string &t) {       // -1: not a payload text (e.g. moved from)
+  static const std::string P = "payload-tag-text-";
+  if (t.size() <= P.size() || t.compare(0, P.size(), P) != 0) return -1;
+  char *e; long v = strtol(t.c_str() + P.size(), &e, 10);
+  return *e ? -1 : v;
+}
 template<class T> inline T *enc_ptr(long m, T **c, int n, bool nullable) {
   if (nullable && m % 5 == 0) return (T *)0;
   if (n == 0) return (T *)0;
